@@ -50,7 +50,8 @@ EXPECTED_PROBES = ["op_set_geometry", "op_concat", "op_pickle", "op_cx", "op_col
                    "earlier_dask_frame_rechecked", "dask_parquet_geometry_and_bounds_kw",
                    "inactive_column_named_geometry", "dask_concat", "dask_repartition", "dask_filter",
                    "op_set_geometry_inplace", "op_concat_of_empty_frames",
-                   "dask_two_frames_same_schema_other_active"]
+                   "dask_two_frames_same_schema_other_active",
+                   "dask_parquet_default_after_geometry_kw", "dask_parquet_columns_reordered"]
 
 PANDAS_OPS = ("set_geometry", "set_geometry_same_then_inplace", "iloc", "mask", "query", "head",
               "take", "sample", "sort_values", "copy", "colsubset", "colsubset_other",
@@ -308,6 +309,14 @@ def _drive(case, root, fs, probes, sig, done):
                                                        **rkw), sig)
                 dactive = col
                 probes["dask_parquet_geometry_kw"] = 1
+                if st["bits"] & 8:
+                    # the same dataset read again WITHOUT geometry=, after it was read with
+                    # one: the default is the first geometry column, whatever came before
+                    dflt = _guard("read_parquet_dask (default geometry)",
+                                  lambda: read_parquet_dask(path, filesystem=fs), sig)
+                    probes["dask_parquet_default_after_geometry_kw"] = 1
+                    _check_dask(dflt, cols[0], "d_parquet[default re-read after geometry=]",
+                                sig, probes, st, light=True)
                 if st["bits"] & 1:
                     # pruning must use the requested column's stored extents
                     b = st["box"]
